@@ -1,7 +1,6 @@
 package harness
 
 import (
-	"sync/atomic"
 	"encoding/json"
 	"errors"
 	"fmt"
@@ -13,6 +12,7 @@ import (
 	"strconv"
 	"strings"
 	"sync"
+	"sync/atomic"
 	"testing"
 
 	"pgregory.net/rapid"
@@ -39,7 +39,10 @@ type World struct {
 	SkipCopy bool
 	Wrap     string                       // none | wrapErrors | wrapErrorsUsing
 	Renames  map[string]map[string]string // source struct type name → source field → target field
-	LeafFn   map[string]string            // source leaf type name → custom function name
+	// AutoMap: source struct type name → source-only field whose inner fields goverter:autoMap
+	// lifts into the enclosing target struct.
+	AutoMap map[string]map[string]bool
+	LeafFn  map[string]string // source leaf type name → custom function name
 	// MethodSrc: source struct type → list of (fault function name, target field) for
 	// fallible source methods; Ctor: source struct type → fallible default constructor.
 	MethodSrc map[string][][3]string
@@ -425,12 +428,17 @@ func Locations(w *World, v reflect.Value) map[verifsim.FaultKey][]verifsim.WrapE
 				}
 				record(verifsim.FaultKey{Fn: ms[0], ID: id}, ext(path, verifsim.WrapElem{Kind: "field", Value: ms[1]}), t.Name())
 			}
-			if t.Name() != "" {
+			if t.Name() != "" && !strings.HasPrefix(t.Name(), "SAuto") {
 				named = append(named, t.Name())
 				defer func() { named = named[:len(named)-1] }()
 			}
 			for i := 0; i < t.NumField(); i++ {
 				name := t.Field(i).Name
+				if w.AutoMap[t.Name()][name] {
+					// goverter:autoMap: the nested struct's fields are fields of the target
+					walk(v.Field(i), path)
+					continue
+				}
 				if r, ok := w.Renames[t.Name()][name]; ok {
 					name = r
 				}
